@@ -248,3 +248,7 @@ Definition trim_line (l : line) : line := (fst l, trim is_sp_tab (snd l)).
 Definition body_byte (seed i : N) : byte := byte_of_N_total ((seed + i * 131 + (i / 256) * 17) mod 256).
 Definition gen_body (seed n : N) : bytes :=
   snd (N.iter n (fun st => let i := N.pred (fst st) in (i, body_byte seed i :: snd st)) (n, [])).
+
+(* bodies above 600 bytes are stood for by their length in the Coq cases (the model looks only at the
+   length and the emptiness of a long body; the bytes themselves are compared by the harness) *)
+Definition long_body (n : N) : bytes := N.iter n (cons x00) [].
